@@ -128,11 +128,13 @@ fn case_typed<S: Spec>(sub: &str, id: u64, r: &mut Report) {
         }
         // source RNG delivering k all-zero blocks, then data (or zeros forever)
         "from_rng" => {
-            let k = p.below(5) as usize;
+            let k = if p.chance(1, 2) { p.below(5) as usize } else { *p.pick(&ZERO_BLOCK_COUNTS) };
             let all_zero_source = !is_xorshift && p.chance(1, 5);
             let mut data = vec![0u8; k * S::SEED_LEN];
             if !all_zero_source {
                 let (_, tail) = gen_seed(&mut p, S::SEED_LEN, wb, false);
+                // sometimes the documented zero-seed substitute itself arrives as data
+                let tail = if p.chance(1, 8) { r.cov("preset_block_as_data"); preset_block(S::NAME, S::SEED_LEN) } else { tail };
                 data.extend_from_slice(&tail);
                 data.extend_from_slice(&p.bytes(64));
             } else {
@@ -152,7 +154,7 @@ fn case_typed<S: Spec>(sub: &str, id: u64, r: &mut Report) {
             if ok1 {
                 r.distinct(hkey(&[&"from_rng", &S::NAME, &data]));
                 r.cov(&format!("from_rng:{}", S::NAME));
-                r.cov(&format!("leading_zero_blocks:{}", k));
+                r.cov(&format!("leading_zero_blocks:{}", if k < 5 { k.to_string() } else { "many".into() }));
                 if all_zero_source {
                     r.cov("all_zero_source");
                 }
@@ -188,7 +190,7 @@ pub fn run(ctx: &Ctx, only: Option<&Only>) -> Report {
     }
     let mut total = par(ctx.threads, |t, r| {
         for (k, (sub, id)) in ids.iter().enumerate() {
-            if k % ctx.threads == t {
+            if k % ctx.threads == t && ctx.keep(k as u64) {
                 run_case(sub, *id, r, &|id, r: &mut Report| case(sub, id, r));
             }
         }
@@ -209,5 +211,7 @@ pub fn run(ctx: &Ctx, only: Option<&Only>) -> Report {
         total.floor(&format!("leading_zero_blocks:{}", k), 10);
     }
     total.floor("all_zero_source", 10);
+    total.floor("leading_zero_blocks:many", 100);
+    total.floor("preset_block_as_data", 100);
     total
 }
